@@ -23,6 +23,7 @@ fn main() {
         "bench" => bench::main(&args[2..]),
         "queue" => queue::main(&args[2..]),
         "clones" => clones::main(&args[2..]),
+        "clonesconc" => clones::conc_main(&args[2..]),
         "chan" => chan::main(&args[2..]),
         "pool" => pool::main(&args[2..]),
         "task" => taskeng::main(&args[2..]),
